@@ -84,7 +84,7 @@ mutual
         match rest with
         | [] => .error (.hang "scanLabels")
         | t :: r => if t.typ == .eof then stop syms else scanLabels t r (labelBuf ++ [cur.val]) syms
-    | .comment | .newline =>
+    | .comment | .newline | .colon =>
       match rest with
       | [] => .error (.hang "scanLabels")
       | t :: r => if t.typ == .eof then stop syms else scanLabels t r labelBuf syms
